@@ -246,3 +246,33 @@ FACETS = [
     Facet('torch/sequences', f_sequence, strategy=lambda t: st_seq('torch', 4), examples={'quick': 200, 'thorough': 8000}, backend='torch'),
     Facet('torch/rotation-map', f_rotmap, strategy=lambda t: st_rotmap('torch', 4), examples={'quick': 200, 'thorough': 8000}, backend='torch'),
 ]
+
+
+def f_derived(case):
+    """rotation of operands that are results of other library calls (non-contiguous views, slices, inverses...)."""
+    be, N = case['be'], case['N']
+    Bk = B.backend(be)
+    GL, gk, gl = _embed_gen(case)
+    c = C.dec_clifford(case['rows'])
+    L, K = ref.parse_list(case['ops'])
+    obj, (EL, EK), kind = C.derived_operand(be, case['how'], c, L, K)
+    if len(EK) == 0:
+        return {'nt': False, 'labels': ['empty']}
+    m = _mask_arg(Bk, case)
+    G = Bk.pauli(gl, gk)
+    for rep in range(case['reps']):
+        ret = obj.rotate_by(G, m) if m is not None else obj.rotate_by(G)
+        EL, EK = ref.rotate_rule(EL, EK, GL, gk)
+        C.expect_list(Bk.read_list(ret), (EL, EK), '%s operand (%s) after rotation #%d by %s on %s' % (kind, case['how'], rep + 1, case['gen'], case['qubits']), 'derived-rows')
+        C.expect_list(Bk.read_list(obj), (EL, EK), 'receiver (%s) after rotation #%d' % (case['how'], rep + 1), 'derived-receiver')
+    return {'nt': bool(ref.anti(np.asarray(EL), GL[None, :]).any()) or case['reps'] > 1, 'labels': [case['how'], 'N=%d' % N, 'no-mask' if m is None else 'mask']}
+
+
+def st_derived(be, hiN):
+    return st.integers(1, hiN).flatmap(lambda N: st.integers(1, N).flatmap(lambda n: st.fixed_dictionaries(
+        {'be': st.just(be), 'N': st.just(N), 'qubits': gen.st_subset(N, n), 'usemask': st.booleans(), 'gen': gen.st_herm(n, nonidentity=True),
+         'how': st.sampled_from(C.DERIVATIONS), 'rows': gen.st_clifford_rows(N), 'ops': st.lists(gen.st_pauli(N), min_size=2, max_size=7), 'reps': st.sampled_from([1, 1, 2, 4])})))
+
+
+FACETS.append(Facet('np/derived-operands', f_derived, strategy=lambda t: st_derived('np', 4), examples={'quick': 1500, 'thorough': 60000}, shards={'quick': 2, 'thorough': 8}))
+FACETS.append(Facet('torch/derived-operands', f_derived, strategy=lambda t: st_derived('torch', 3), examples={'quick': 200, 'thorough': 8000}, shards={'quick': 1, 'thorough': 4}, backend='torch'))
